@@ -81,7 +81,10 @@ impl ToInternedString for TemplateLiteral {
         for elt in &self.elements {
             match elt {
                 TemplateElement::String(s) => {
-                    let _ = write!(buf, "{}", interner.resolve_expect(*s));
+                    buf.push_str(&crate::escape_string_units(
+                        interner.resolve_expect(*s).utf16(),
+                        '`',
+                    ));
                 }
                 TemplateElement::Expr(n) => {
                     let _ = write!(buf, "${{{}}}", n.to_interned_string(interner));
